@@ -24,7 +24,7 @@ def zero_item(ty):
     return "0" * DIG[ty]
 
 
-def gen_history(rng, f, ch, ty, lowzero, nops, depth_seed, route):
+def gen_history(rng, f, ch, ty, lowzero, nops, depth_seed, route, special=None):
     """a history on one store: create (rw or w), then rw edits, close/re-open; returns (script, expected-checker)"""
     raw = f.major == 0x04
     L = []
@@ -155,8 +155,25 @@ def gen_history(rng, f, ch, ty, lowzero, nops, depth_seed, route):
         emit("info %s" % h, lambda out, n=n: None if abscheck.parse_kv(out).get("frames") == str(n) else "after truncating to %d frames the handle reports %s" % (n, abscheck.parse_kv(out).get("frames")))
 
     # ---- the history ----
-    start_empty = rng.random() < 0.5
-    if start_empty:
+    if special == "trunc_tail":
+        # a file with an odd number of frames (odd byte totals for 1- and 3-byte samples: a pad byte follows the audio), re-opened
+        # read/write, shortened, closed with nothing written afterwards: a fresh open must see the shortened file
+        h = opn("w")
+        do_write(h, rng.choice([3, 5, 7, 9]))
+        emit("close %s" % h)
+        h = opn("rw")
+        F0 = len(A.frames)
+        n = rng.choice([1, F0 // 2, F0 - 1])
+        emit("cmd %s 1080 8 %s" % (h, struct.pack("<q", n).hex()), lambda out: None if abscheck.parse_kv(out).get("ret") == "0" else "SFC_FILE_TRUNCATE returned %s" % out[:50])
+        A.frames = A.frames[:n]
+        A.rpos = A.wpos = n
+        nops = 0
+        start_empty = None
+    else:
+        start_empty = rng.random() < 0.5
+    if start_empty is None:
+        pass
+    elif start_empty:
         h = opn("rw")
     else:
         h = opn("w")
@@ -181,7 +198,7 @@ def gen_history(rng, f, ch, ty, lowzero, nops, depth_seed, route):
         else:
             emit("close %s" % h)
             h = opn("rw")
-    if route != "vio" and rng.random() < 0.4 and len(A.frames) > 1:
+    if special is None and route != "vio" and rng.random() < 0.4 and len(A.frames) > 1:
         # truncate as the LAST thing before close (nothing is written afterwards that would repair a stale end-of-data)
         do_trunc(h)
     emit("close %s" % h)
@@ -251,6 +268,12 @@ def run(ctx):
         route = rng.choice(["vio", "fd"])
         script, expect = gen_history(rng, f, ch, ty, loss[ty], 25 if quick else 60, 0, route)
         jobs.append((f, ch, ty, route, script, expect))
+    # deterministic: shorten-then-close on a file with a pad byte / trailing bytes, every container, one channel, descriptor route
+    for f in fs:
+        loss = G.lossless_types(f)
+        ty = sorted(loss)[0]
+        script, expect = gen_history(rng, f, 1, ty, loss[ty], 0, 0, "fd", special="trunc_tail")
+        jobs.append((f, 1, ty, "fd", script, expect))
     out = ctx.batch([("%s-%d" % (j[0].name, i), j[4]) for i, j in enumerate(jobs)], clean=True)
     reported = set()
     skipped = 0
@@ -284,6 +307,10 @@ def run(ctx):
                 break
         else:
             ctx.distinct.add("rdwr:" + f.name)
+        if prob and f.major == 0x08 and kf_still.get("KF-VOC-RDWR-TRUNCATE") and any(l.startswith("cmd ") and " 1080 " in l for l in sl[:prob[0] + 1]) \
+                and ("open for r failed" in prob[1] or "open (r" in prob[1] or "open (rw" in prob[1] or "a fresh open reads" in prob[1] or "open for rw failed" in prob[1]):
+            kf_hits["KF-VOC-RDWR-TRUNCATE"] = kf_hits.get("KF-VOC-RDWR-TRUNCATE", 0) + 1
+            prob = None      # class: VOC + truncate in the history; signature: the next open fails or reports the old count
         if prob:
             key = f.name.split("-")[0]
             if key in reported or len(reported) >= 6:
